@@ -378,4 +378,10 @@ def outputs (cfg : Cfg) (cn : Conn) (off : Nat) (hs : Headers) : Out :=
     hostname := hostname cfg cn hs, scheme := scheme cfg cn hs, baseURL := baseURL cfg cn hs,
     secure := secure cfg cn hs, sub := subdomains cfg cn hs 2, subo := subdomains cfg cn hs off, proto := cn.proto }
 
+/-- a history on one app: every request (its own connection, its own headers) is answered by
+    `outputs` of that request alone — fiber keeps nothing between requests that the accessors read
+    (the harness serves histories of related peers through one app and compares each judged request) -/
+def serveAll (cfg : Cfg) (off : Nat) (reqs : List (Conn × Headers)) : List Out :=
+  reqs.map fun r => outputs cfg r.1 off r.2
+
 end C10
